@@ -138,6 +138,11 @@ func (p *Path) intrinsic(fn *ssa.Function, args []Value) (Value, bool) {
 	case "verifAssertKnown":
 		p.assertObligKnown(args[0].(*Term), constStr(p, args[1], "assert label"), args[2].(*Term), constStr(p, args[3], "finding id"))
 		return nil, true
+	case "verifDeterministic":
+		// relational obligation: every schedule (map order, capacity) must give the same value
+		p.detObs = append(p.detObs, Obs{Label: constStr(p, args[0], "label"), Val: strArg(args[1])})
+		p.obs = append(p.obs, Obs{Label: "det:" + constStr(p, args[0], "label"), Val: strArg(args[1])})
+		return nil, true
 	case "verifObserve":
 		p.obs = append(p.obs, Obs{Label: constStr(p, args[0], "observe label"), Val: strArg(args[1])})
 		return nil, true
